@@ -47,12 +47,17 @@ class _PeriodicStub:
 
     def set_periodic_action(self, period, cb):
         assert period is not None and cb is not None
-        self.sim.timers[(self.owner, id(cb))] = [period, self.sim.now, cb, self.sim.timer_seq]
+        self.sim.timers[(self.owner, self.sim.timer_seq)] = [period, self.sim.now, cb,
+                                                             self.sim.timer_seq]
         self.sim.timer_seq += 1
         return cb
 
     def remove_periodic_action(self, handle):
-        self.sim.timers.pop((self.owner, id(handle)))
+        for key, t in list(self.sim.timers.items()):
+            if key[0] == self.owner and t[2] is handle:
+                del self.sim.timers[key]
+                return
+        raise KeyError(handle)
 
 
 class CompSim:
